@@ -126,3 +126,29 @@ def replay_negative_sample(prop, v):
 for _u in ["Node.decide_class_change", "Node.begin_service_if_possible_accept", "Node.begin_service_if_possible_release",
            "Node.preempt", "Node.slotted_service", "Node.begin_service_if_possible_change_shift"]:
     REPLAYS.setdefault(_u, replay_negative_sample)
+
+
+def replay_stale_prev_priority(prop, v):
+    """whole-run witness: class change after service at node 1 (A -> B, other priority), reneging at node 2"""
+    ciw = _ciw()
+    N = ciw.create_network(
+        arrival_distributions={'A': [ciw.dists.Deterministic(1.0), None], 'B': [None, None]},
+        service_distributions={'A': [ciw.dists.Deterministic(0.1), ciw.dists.Deterministic(5.0)],
+                               'B': [ciw.dists.Deterministic(0.1), ciw.dists.Deterministic(5.0)]},
+        routing={'A': [[0.0, 1.0], [0.0, 0.0]], 'B': [[0.0, 1.0], [0.0, 0.0]]},
+        number_of_servers=[1, 1], priority_classes={'A': 0, 'B': 1},
+        class_change_matrices=[{'A': {'A': 0.0, 'B': 1.0}, 'B': {'A': 0.0, 'B': 1.0}},
+                               {'A': {'A': 1.0, 'B': 0.0}, 'B': {'A': 0.0, 'B': 1.0}}],
+        reneging_time_distributions={'A': [None, ciw.dists.Deterministic(2.0)], 'B': [None, ciw.dists.Deterministic(2.0)]})
+    Q = ciw.Simulation(N)
+    try:
+        Q.simulate_until_max_time(20)
+    except ValueError as e:
+        return dict(confirmed=True, kind="whole-run",
+                    transcript="2 nodes, classes A (priority 0) / B (priority 1), class change A->B after service at node 1, "
+                               "reneging at node 2: the customer is filed in line 1 of node 2 but prev_priority_class is still 0, "
+                               f"so renege() raises ValueError({e})")
+    return dict(confirmed=False, kind="whole-run", transcript="run completed without error")
+
+
+REPLAYS["Node.accept"] = replay_stale_prev_priority
